@@ -102,7 +102,7 @@ var findings = []finding{
 	// aggregates over an empty input (or only NULLs) return NULL but report NOT NULL when their argument is NOT NULL
 	{id: "C09-aggregate-not-nullable", kinds: []string{vNull}, ops: []string{"SUM", "SUM_DISTINCT", "AVG", "MIN", "MAX", "gen:min", "gen:max", "gen:sum", "gen:avg", "STD", "STDDEV_SAMP", "VAR_SAMP", "VARIANCE",
 		"GROUP_CONCAT", "JSON_ARRAYAGG", "JSON_OBJECTAGG", "ANY_VALUE", "BIT_AND", "BIT_OR", "BIT_XOR", "WMIN", "WMAX", "WSUM", "WAVG", "WGROUP_CONCAT", "WJSON_ARRAYAGG", "WBIT_OR", "FIRST_VALUE", "LAST_VALUE", "LAG", "LEAD", "wrap:"}},
-	// the null-supplying side of an outer join keeps its NOT NULL columns NOT NULL when the ON clause has a constant conjunct
+	// NOT NULL columns of the null-supplying side of a LEFT/RIGHT JOIN (and expressions over them) stay NOT NULL
 	{id: "C09-outer-join-not-null", kinds: []string{vNull}, outer: true, ops: []string{"col", "col-outer-join", "gen:", "ctx:"}},
 	// STD/VARIANCE report their argument's type and return a DOUBLE
 	{id: "C09-variance-type", kinds: []string{vChanged, vKind, vSQL, vRange, vDigits, vLength, vConvert}, ops: []string{"STD", "STDDEV_SAMP", "VAR_SAMP", "VARIANCE"}},
@@ -115,9 +115,7 @@ var findings = []finding{
 	// JSON functions that return NULL for a missing path / non-object report NOT NULL
 	{id: "C09-json-function-not-nullable", kinds: []string{vNull}, ops: []string{"JSON_", "->", "->>"}},
 	// functions that report the type of their argument although they return a string / a datetime
-	{id: "C09-function-reports-argument-type", kinds: []string{vKind, vSQL, vChanged, vConvert}, ops: []string{"SUBSTRING", "SUBSTRING_INDEX", "LEFT", "RIGHT", "UPPER", "LOWER", "TIMESTAMP", "CONVERT_USING", "REVERSE", "TRIM", "LTRIM", "RTRIM", "REPEAT", "REPLACE", "INSERT"}},
-	// LPAD/RPAD cut their pad string at a byte position inside a multi-byte character
-	{id: "C09-pad-multibyte", kinds: []string{vCharset}, ops: []string{"LPAD", "RPAD"}},
+	{id: "C09-function-reports-argument-type", kinds: []string{vKind, vSQL, vChanged, vConvert, vDigits, vRange, vLength, vMember}, ops: []string{"SUBSTRING", "SUBSTRING_INDEX", "LEFT", "RIGHT", "UPPER", "LOWER", "TIMESTAMP", "CONVERT_USING", "REVERSE", "TRIM", "LTRIM", "RTRIM", "REPEAT", "REPLACE", "INSERT"}},
 	// UNION of a FLOAT/DOUBLE branch and a DECIMAL branch is typed DECIMAL(65,30) and holds values with more than 35 integer digits
 	{id: "C09-union-decimal-overflow", kinds: []string{vDigits}, ops: []string{"setop"}},
 }
